@@ -160,18 +160,4 @@ theorem nameless_locus_witness :
     wfLayoutJ x = true ∧ strictRead (build x {}) ≠ some (abs x) := by
   decide +kernel
 
-theorem buildReferences_ignores_index (g : Reference → Str) : ∀ (refs : List Reference) (i : Nat),
-    buildReferences i (refs.map fun r => { r with index := g r }) = buildReferences i refs
-  | [], _ => rfl
-  | r :: rs, i => by
-    simp only [List.map_cons, buildReferences, buildReferences_ignores_index g rs (i + 1)]
-
-/-- `C03-reference-number`: `Build` never reads `Reference.Index` — two records that differ only in
-their reference numbers are written to the same text, so no reader can give both back -/
-theorem reference_number_witness (x : Sequence) (g : Reference → Str) (o : MapOrders) :
-    build { x with metadata := { x.metadata with references := x.metadata.references.map fun r => { r with index := g r } } } o
-      = build x o := by
-  unfold build
-  simp only [buildReferences_ignores_index]
-
 end PolyVerif.Props.C03
